@@ -127,7 +127,7 @@ theorem message_delivered (r0 : Rd) (s : Src) (cx : Ctx) (f0 : WFrame) (fs : Lis
     (hm : Message r0 f0 fs)
     (hb : s.bytes = encodeFs (f0 :: fs) ++ rest) (hwf : Bytes.WF s.bytes) (htame : Src.Tame s) :
     ∃ r1 s1 out e r' s',
-      r0.nextFrame s cx none = (some f0.h, none, r1, s1, cx)
+      r0.nextFrame s cx none = (some f0.h, none, r1, s1, cx) ∧ r1.hasFrame = true
       ∧ reads r1 s1 cx ks = some (out, e, r', s', cx)
       ∧ (∃ more, dataPlain (f0 :: fs) = out ++ more)
       ∧ (e = none ∨ e = some .eof)
@@ -186,7 +186,7 @@ theorem message_delivered (r0 : Rd) (s : Src) (cx : Ctx) (f0 : WFrame) (fs : Lis
     · exact h
     · exact absurd hend.opn (by decide)
   obtain ⟨out, e, r', s', hrd, hcase⟩ := key'
-  refine ⟨enter r0 f0.h, s1, out, e, r', s', hnext, hrd, ?_, ?_, ?_, ?_⟩
+  refine ⟨enter r0 f0.h, s1, out, e, r', s', hnext, rfl, hrd, ?_, ?_, ?_, ?_⟩
   · rcases hcase with ⟨_, rem', h1, _, _⟩ | ⟨_, h1, _⟩
     · exact ⟨rem', h1⟩
     · exact ⟨[], by rw [h1]; simp⟩
